@@ -47,7 +47,9 @@ Step(s, e) ==
     [] e.ev = "sub_call" ->
          IF s.sst[e.s] = "out" THEN {[s EXCEPT !.sst[e.s] = "subscribing", !.lo[e.s] = Len(s.order) + 1]} ELSE {}
     [] e.ev = "sub_ret" ->
-         IF s.sst[e.s] = "subscribing" THEN {[s EXCEPT !.sst[e.s] = "in", !.hi[e.s] = Len(s.order) + 1]} ELSE {}
+         \* (a subscription requested after the tracer has terminated is void)
+         IF s.sst[e.s] = "subscribing"
+         THEN {[s EXCEPT !.sst[e.s] = IF s.done THEN "gone" ELSE "in", !.hi[e.s] = Len(s.order) + 1]} ELSE {}
     [] e.ev = "recv" ->
          IF s.sst[e.s] \notin {"in", "leaving"} THEN {}
          ELSE IF s.pos[e.s] = 0
@@ -72,7 +74,8 @@ Step(s, e) ==
          \* termination only after cancellation and after every sender finished
          IF s.cancelled /\ \A p \in DOMAIN s.retk : s.retk[p] = s.callk[p] THEN {[s EXCEPT !.done = TRUE]} ELSE {}
     [] e.ev = "closed" ->
-         IF s.cancelled /\ s.sst[e.s] = "in" /\ s.nclosed[e.s] = 0 THEN {[s EXCEPT !.nclosed[e.s] = 1]} ELSE {}
+         \* (termination may overtake a subscriber that is just leaving)
+         IF s.cancelled /\ s.sst[e.s] \in {"in", "leaving"} /\ s.nclosed[e.s] = 0 THEN {[s EXCEPT !.nclosed[e.s] = 1]} ELSE {}
     [] e.ev = "end" ->
          IF s.cancelled => (s.done /\ \A x \in SubIds : s.sst[x] = "in" => s.nclosed[x] = 1)
          THEN {s} ELSE {}
